@@ -13,7 +13,8 @@ impl std::fmt::Display for Mir {
                 .collect::<Vec<_>>()
                 .join(",");
             let _ = writeln!(f, "fn {} [{af}]", fun.label);
-            let upi = format_vec!(fun.upindexes, ",");
+            let upvalues = fun.upindexes.iter().map(|(v, _)| v).collect::<Vec<_>>();
+            let upi = format_vec!(upvalues, ",");
             let _ = write!(f, "upindexes:[{upi}]");
             if let Some(upper_i) = fun.upperfn_i {
                 let _ = write!(f, "upper:{upper_i}");
@@ -46,6 +47,7 @@ impl std::fmt::Display for Value {
             Value::Global(gv) => write!(f, "global({})", *gv),
             Value::Argument(i) => write!(f, "arg({i})"),
             Value::Register(r) => write!(f, "reg({r})"),
+            Value::UpValue(i) => write!(f, "upvalue({i})"),
             Value::Function(id) => write!(f, "function {id}"),
             Value::ExtFunction(label, t) => {
                 write!(f, "extfun {label} {}", t.to_type())
